@@ -191,7 +191,7 @@ func rulesC07(c *Ctx) {
 	}
 	okEntry := false
 	if ifi, ok := entry.Instrs[len(entry.Instrs)-1].(*ssa.If); ok && fnCall != nil {
-		if bo, ok := ifi.Cond.(*ssa.BinOp); ok && bo.Op == token.EQL {
+		if bo, ok := ifi.Cond.(*ssa.BinOp); ok && (bo.Op == token.EQL || bo.Op == token.NEQ) {
 			if k, ok := bo.Y.(*ssa.Const); ok && k.Value != nil {
 				v, _ := constant.Int64Val(constant.ToInt(k.Value))
 				if ex, ok := bo.X.(*ssa.Extract); ok && ex.Tuple == fnCall && ex.Index == 0 && tt.Name[v] == "BOUNDPARAM" {
